@@ -159,6 +159,11 @@ func (x *fnExec) generate() {
 		}
 	}
 	fr.entry = st.clone()
+	if len(c.Serial) > 0 {
+		// the audit obligation exists even when the function has no raw comparison today
+		x.obligation(st, c.Key+":assert#serial-compare", "assert", "function entry (no comparison)", c.Serial, True, nil,
+			"ordering comparisons between sequence numbers follow serial-number arithmetic")
+	}
 	rets := x.runFunc(fr, st)
 	for _, r := range rets {
 		site := fmt.Sprintf("return %d", r.idx)
@@ -714,6 +719,30 @@ const packageKey = "(package)"
 // a field may be stored to directly only by the listed functions.
 func verifyWriters(p *Program) *FuncReport {
 	rep := &FuncReport{Key: packageKey, SmokeOK: true}
+	if len(p.SerialAudit) > 0 {
+		sites := seqSites(p)
+		r := &OblResult{Name: "serial-audit", Func: packageKey, Kind: "audit", Tags: p.SerialAudit, Status: "proved", Backend: "frame-scan", Sites: len(sites) + 1,
+			Src: "every ordering comparison between two sequence-number values goes through the RFC 1982 helpers (a raw <,<=,>,>= differs from serial order for operands more than half the space apart)"}
+		if len(sites) > 0 {
+			// a raw comparison of unconstrained sequence numbers never equals the serial comparison: shown by the solver
+			resetTerms()
+			a, b := Sym("a", BV(32)), Sym("b", BV(32))
+			d := BVBin("bvsub", b, a)
+			ser := And(Not(Eq(d, BVU(0, 32))), BVCmp("bvult", d, BVU(1<<31, 32)))
+			w := newSMTWriter()
+			w.assert(Not(Eq(BVCmp("bvult", a, b), ser)))
+			res := solve("serial-audit", w.sb.String(), []string{"a", "b"}, 20, false)
+			r.Status = "refuted"
+			if res.Status != "sat" {
+				r.Status = "unknown"
+			}
+			r.Model = res.Model
+			r.Backend = res.Backend
+			r.FailSite = "raw comparison of sequence numbers at " + strings.Join(sites, "; ")
+			r.Output = r.FailSite + "\n" + res.Output
+		}
+		rep.Results = append(rep.Results, r)
+	}
 	if len(p.Writers) == 0 {
 		return rep
 	}
